@@ -13,14 +13,19 @@ Coq specification `spec_verdicts` (one admissible list of shots per result).  Th
 exposed the former sharing of M.result between results are replayed on the real code.  parallel_execution /
 parallel_circuits_execution / parallel_parametrized_execution run with processes = 1..3 under a
 timeout; seeding is checked by re-running with the same seed.
+
+Isolation streams (harness/c14_iso.py; gap families B and A): xhist = extended histories (all input kinds, every
+branch of apply_gate as first gate, apply_bitflips / expectation_from_samples / state / to_dict / dump accessors) tied
+to C14/ModelIso.v step by step (heap trace after every call, theorems of C14/PropsIso.v); diff = every execution mode
+against seeded solo replicas on fresh objects, inputs against deep snapshots; retw = the caller writes into returned objects.
 """
-STATIC = ["C14/Props", "C03/Check"]
+STATIC = ["C14/Props", "C14/PropsIso", "C14/CheckIso", "C03/Check"]
 import random
 import threading
 
 import numpy as np
 
-from harness import c03
+from harness import c03, c14_iso
 from harness.c03 import (HistoryRun, backend, dyadic_state, eval_cases, judge_history, ordered_sublist, parse_case,
                          random_accessor, random_registers, static_obligations)
 
@@ -535,13 +540,21 @@ RULE = ("histories: n<=3, registers = random partition of a random qubit subset 
         "parallel_execution / parallel_circuits_execution / parallel_parametrized_execution with processes 1..3, 2..4 tasks, under a 90 s timeout.  "
         "repeated: two shot-by-shot executions (collapsing measurement) of one circuit object, all views of both results judged against their own samples.  "
         "clifford: two executions of one circuit object on the Clifford backend from different basis stabiliser states / shot counts, read in random order.  "
-        "bitflip_two_results: two results of one circuit object with measurement bit-flip noise, all views of both in random order, each judged against its own samples / own noiseless draws.")
+        "bitflip_two_results: two results of one circuit object with measurement bit-flip noise, all views of both in random order, each judged against its own samples / own noiseless draws.  "
+        "xhist: n=2..3, first gate cycling through {no gate, plain 1-qubit, plain 2-qubit, controlled_by with leading control(s) in increasing order, two leading controls, trailing controls, "
+        "unordered controls, fused} built from exact X/Y/Z/S/SWAP gates (50% followed by 1-2 more), 1..3 executions with input kinds cycling through {complex128, the SAME array again, complex64, "
+        "float64, strided view, read-only, list, an earlier result's state(), default}, <=11 operations from {samples, frequencies, probabilities, apply_bitflips(float/dict/list/tuple forms, "
+        "75% deterministic), expectation_from_samples, state/state(numpy)/symbolic/str/to_dict/dump+load, final_state}; after every operation inputs vs deep snapshots and the heap of all results vs xtrace.  "
+        "diff: modes cycling through {state vector, density matrix, shot-by-shot with collapse, noisy trajectories, density matrix with channel / collapse, parallel_execution, "
+        "parallel_parametrized_execution, parallel_circuits_execution} x first-gate kinds (also Unitary, channel, collapsing M) x input kinds (also Fortran-ordered), float data, 4..10 operations "
+        "each preceded by a re-seed; every result against a seeded solo replica on fresh objects; finally the caller overwrites its input arrays.  "
+        "retw: 14 accessor calls x {sv, dm, shot-by-shot} x {samples first, frequencies first}, the caller writes into the returned object.")
 
 
 def budgets(tier):
     if tier == "thorough":
-        return {"hist": 3000, "seed": 200, "par": 90, "rep": 150, "cliff": 120, "flip": 150}
-    return {"hist": 300, "seed": 40, "par": 18, "rep": 30, "cliff": 24, "flip": 30}
+        return {"hist": 3000, "seed": 200, "par": 90, "rep": 150, "cliff": 120, "flip": 150, "xhist": 1600, "diff": 2400, "cliffin": 200}
+    return {"hist": 300, "seed": 40, "par": 18, "rep": 30, "cliff": 24, "flip": 30, "xhist": 240, "diff": 330, "cliffin": 30}
 
 
 def main(run):
@@ -550,7 +563,13 @@ def main(run):
                     "C03/ModelResult.v as the model of result.py / measurements.py (tied by the exact correspondence of this run and of C03)",
                     "harness/c03.py HistoryRun: recording of the implementation's draws, serialisation",
                     "joblib threads: every schedule is represented at method-call granularity only"]
-    run.assumptions += ["bit-flip probabilities p = 0, no collapse / repeated execution inside the histories",
+    run.trusted += ["harness/c14_iso.py: deep snapshots of inputs, attribute peek of what the result objects hold (heap trace), exact Gaussian-integer "
+                    "application of X/Y/Z/S/SWAP (+controls) as the oracle of the executed state, bit-for-bit comparison with seeded solo replicas"]
+    run.notes["isolation_model"] = ("C14/ModelIso.v (xop = base operations + apply_bitflips + read-only peeks); theorems C14/PropsIso.v: accessors_write_once(_run), "
+                                    "other_results_untouched, executions_keep_results, materialised_accessor_identity, result_function_of_own_execution(_fresh), "
+                                    "first/later_execution_standalone; tied by xtrace (heap after every call) and xsolo_ok (outputs == solo run) on every xhist case")
+    run.assumptions += ["measurement-gate bit-flip probabilities p = 0 inside the model-tied histories (the post-hoc accessor result.apply_bitflips IS modelled: deterministic maps exactly, "
+                        "fractional maps by their effect on the heap only); no collapse / repeated execution inside the model-tied histories (covered differentially by part diff)",
                         "np.random.* are oracles (contract checked on every draw); thread interleavings inside one method call are not modelled"]
     names = static_obligations(run, "C14/Props")
     if run.tier == "thorough":
@@ -564,6 +583,11 @@ def main(run):
     sp(run, "repeated_sharing", lambda: part_repeated_sharing(run, be, b["rep"]))
     sp(run, "clifford", lambda: part_clifford(run, be, b["cliff"]))
     sp(run, "bitflip_two_results", lambda: c03.part_bitflip(run, None, be, b["flip"], tag="bitflip_two_results", executions=2))
+    names += static_obligations(run, "C14/PropsIso")
+    sp(run, "xhist", lambda: c14_iso.part_xhist(run, be, b["xhist"]))
+    sp(run, "diff", lambda: c14_iso.part_diff(run, be, b["diff"]))
+    sp(run, "retw", lambda: c14_iso.part_retw(run, be))
+    sp(run, "cliff_inputs", lambda: c14_iso.part_cliff_inputs(run, be, b["cliffin"]))
     run.refuted = list(dict.fromkeys(run.refuted))
     return run.finish(rule=RULE)
 
@@ -590,4 +614,12 @@ def replay(run, data):
         part_clifford(run, be, rp["case"] + 1)
     elif part == "repeated_sharing":
         part_repeated_sharing(run, be, rp["case"] + 1)
+    elif part == "xhist":
+        c14_iso.part_xhist(run, be, 0, only=[rp["case"]])
+    elif part == "diff":
+        c14_iso.part_diff(run, be, 0, only=[rp["case"]])
+    elif part == "retw":
+        c14_iso.part_retw(run, be)
+    elif part == "cliff_inputs":
+        c14_iso.part_cliff_inputs(run, be, rp["case"] + 1)
     return run.finish(rule="replay of one recorded case")
